@@ -131,6 +131,19 @@ func sameEntriesC38(a, b pack.Blobs) bool {
 	return true
 }
 
+// permuteC38 returns a drawn permutation of ops (indices are drawn to keep rapid's log small).
+func permuteC38(t *rapid.T, ops []vOpC38, label string) []vOpC38 {
+	idx := make([]int, len(ops))
+	for i := range idx {
+		idx[i] = i
+	}
+	out := make([]vOpC38, 0, len(ops))
+	for _, i := range rapid.Permutation(idx).Draw(t, label) {
+		out = append(out, ops[i])
+	}
+	return out
+}
+
 type vPackC38 struct {
 	id      restic.ID
 	h       backend.Handle
@@ -398,7 +411,7 @@ func TestVerifC38Cache(t *testing.T) {
 		covered := false
 		if mode == "sequential" {
 			full := fullOps()
-			plans[0] = rapid.Permutation(full).Draw(t, "order")
+			plans[0] = permuteC38(t, full, "order")
 			covered = true
 			extra := rapid.IntRange(0, 3).Draw(t, "extra")
 			for i := 0; i < extra; i++ {
@@ -415,7 +428,7 @@ func TestVerifC38Cache(t *testing.T) {
 				covered = true
 			}
 			for g := range plans {
-				plans[g] = rapid.Permutation(common).Draw(t, "gorder")
+				plans[g] = permuteC38(t, common, "gorder")
 				if !covered && len(plans[g]) > 1 && rapid.Bool().Draw(t, "thin") {
 					plans[g] = plans[g][:len(plans[g])-1]
 				}
